@@ -1,6 +1,7 @@
 //! Runtime-verification harness for routinator.
 
 pub mod alloc;
+pub mod caplog;
 pub mod core;
 pub mod hooks;
 pub mod iso;
